@@ -110,8 +110,12 @@ def gen_phase(rng):
         loops = []
         if kind == "loop1":
             loops = [[rng.choice(["i", "k"]), rng.choice([0, 1, "lo"]), rng.choice([3, "n", "n+1"])]]
+            if rng.random() < 0.3:
+                # constant bounds of every length: one trip [k, k+1), none [k, k), backwards [k, k-1)
+                k = rng.choice([0, 1, 3])
+                loops = [[rng.choice(["i", "k"]), k, k + rng.choice([1, 1, 0, 2, -1])]]
         elif kind == "loop2":
-            loops = [["i", 0, rng.choice([2, "n"])], ["j", rng.choice([0, "i"]), rng.choice([3, "m"])]]
+            loops = [["i", 0, rng.choice([2, "n", 1])], ["j", rng.choice([0, "i", 1]), rng.choice([3, "m", 2])]]
         # which loop variables the looped statement mentions: all / only in the subscript / none at all
         # (scalar assignee, constant right-hand side) / all but the outermost
         uses = rng.choice(["all", "all", "subscript", "none", "inner-only"])
